@@ -196,6 +196,23 @@ register("C02",
          "TLA+ block-assembly model checked by TLC + TLC trace validation of real matrices as value classes",
          "DESIGN.md §4 C02")
 
+register("C14",
+         "Two models: Sqra.tla shows on the exact lattice that a symmetric S/h makes V_i base^(-2k_i) (Boltzmann x volume) "
+         "stationary and in detailed balance, and that one asymmetric entry (the shape of the fold defect) breaks it; "
+         "Molgri.tla models the pipeline over the artefact store (one directory per grid identifier; BuildGrid, Write, Read, "
+         "GenPT, ComputeEnergy, BuildRate, Decompose) with the invariants one-cell-order, directories pure, memory current, "
+         "read = write and rate inputs consistent, explored exhaustively for two grid specifications. The package's own "
+         "classes are then driven end to end (GridWriter -> files -> GridReader -> SQRA on random lattice energies -> "
+         "DecompositionTool with sigma=None/'LR' and with a shift that is no eigenvalue) and the event trace is validated by "
+         "Molgri_Trace, which takes the pipeline model's action for every event and checks: digests read = written; the "
+         "conductance Q_ij V_i 2^(k_j-k_i)/D recovered from the rate matrix is symmetric, sits exactly on the saved adjacency "
+         "and equals S_ij/h_ij of the files in grid order; eigenvalues real, descending, within 1e-6 of the spectral radius "
+         "of a dense solver, largest zero; leading left eigenvector / (V_i exp(-E_i/RT)) constant within 1e-5.",
+         "Solver clause is a tolerance band (ARPACK vs numpy dense); energies on the lattice k*2RT ln2; connected grids with "
+         "n >= 16 cells for the decomposition.",
+         "TLA+ pipeline + SqRA models checked by TLC; TLC trace validation of the end-to-end pipeline re-using the model's actions",
+         "DESIGN.md §4 C14, §5")
+
 ALL = [f"C{i:02d}" for i in range(1, 21)]
 
 
